@@ -163,7 +163,7 @@ def run(ctx):
 
 
 META = {
-    "technique": "who-may-write over field events of `reserved`; sibling agreement of the normalised overlap scans; pairing/ordering via dominators; guard dominance",
+    "technique": "who-may-write over field events of `reserved`; sibling agreement of the normalised overlap scans; pairing/ordering via dominators; guard dominance; comparator key sequence ends with the object identity",
     "level": "Static decision that `reserved` changes only in add/remove (by the scanned contribution) and in resize/setAlignment (to the packed total), that add and remove run the identical overlap scan so a release "
              "subtracts exactly what the reservation added, that set, ring and counter are updated together and in the right order, that resize rejects sizes below the reserved amount before any effect, "
              "and that size only ever takes aligned amounts. Covers every history's bookkeeping step; tests check a few totals.",
